@@ -376,6 +376,17 @@ def a_oracle(c, out):
             yield ("posttag_after_version", "-T %s stands before a version entry in %s" % (t, vro))
     if len([e for e in vro if not e.startswith("warn")]) != len(set(e for e in vro if not e.startswith("warn"))):
         yield ("vro_no_duplicates", "repeated entry in %s" % vro)
+    # "may be repeated; precedence is left-to-right"
+    for tl, what in ((c["tags"], "-t"), ([t for t in c["postTags"] if t not in c["tags"]], "-T")):
+        seen = []
+        for t in tl:
+            if t in GLOBAL_TAGS and t not in seen:
+                seen.append(t)
+        pos = [vro.index(t) for t in seen if t in vro]
+        if pos != sorted(pos):
+            yield ("tags_left_to_right", "%s tags %s are not in that order on %s" % (what, seen, vro))
+    if c["keep"] and vro[:1] != ["keep"]:
+        yield ("keep_first", "--keep, but the VRO is %s" % vro)
 
 
 def eval_a(ctx, cases, pool):
